@@ -134,3 +134,9 @@ void vf_harness(void) { File* f; File_close(f); VF_CANARY(); }
     functions=['File::close'], trusted=['fclose (libc)'],
 )
 UNITS += [file_close]
+
+# replay: turn units have no direct native input; the driver's battery (lines of every length 0..1100 with LF / CRLF / lone CR / no final newline, byte round trips around
+# 255 and 65536, write - size() - write - close - append histories on one object, the three BOM encodings) runs on the real library instead
+for _u in UNITS:
+    if not _u.replay:
+        _u.replay = replay.battery('C17/driver.cpp', ['battery'])
